@@ -1,3 +1,4 @@
+mod admin;
 mod inst;
 mod raw;
 mod report;
